@@ -102,13 +102,14 @@ Definition cur_of (st : istate) : option header :=
   end.
 
 (* ---- encoder side (what the server writes): used by the theorems and by the generators ---- *)
-Definition enc_be (n : nat) (x : Z) : list Z :=    (* n big-endian bytes of x mod 256^n *)
-  map (fun i => (x / 256 ^ Z.of_nat i) mod 256) (rev (seq 0 n)).
-
 Definition enc_frame (dirbit : Z) (h : header) (body : list Z) : list Z :=
-  (dirbit + h_ver h) :: h_flags h ::
-  (if 3 <=? h_ver h then enc_be 2 (h_stream h) else enc_be 1 (h_stream h)) ++
-  [h_op h] ++ enc_be 4 (h_len h) ++ body.
+  let s := h_stream h in
+  let l := h_len h in
+  if 3 <=? h_ver h
+  then (dirbit + h_ver h) :: h_flags h :: (s / 256) mod 256 :: s mod 256 :: h_op h ::
+       (l / 16777216) mod 256 :: (l / 65536) mod 256 :: (l / 256) mod 256 :: l mod 256 :: body
+  else (dirbit + h_ver h) :: h_flags h :: s mod 256 :: h_op h ::
+       (l / 16777216) mod 256 :: (l / 65536) mod 256 :: (l / 256) mod 256 :: l mod 256 :: body.
 
 (* ---- routing in process_msg: by stream id ---- *)
 Inductive revent :=
